@@ -31,9 +31,22 @@ int main(int argc, char** argv) {
   rime::Deployer& dep = rime::Service::instance().deployer();
   RimeConfig cfg = {0};
   api->config_init(&cfg);
+  // two string families per length: ASCII, and multi-byte UTF-8 (2-, 3- and 4-byte characters, so that every
+  // buffer size also falls inside a character)
+  static const char* kUnits[] = {"\xc3\xa9", "\xe4\xb8\xad", "\xf0\xa0\x80\x80", "x"};
+  for (size_t pass = 0; pass < 2; ++pass)
   for (size_t len = 0; len <= maxlen; ++len) {
     std::string v;
-    for (size_t i = 0; i < len; ++i) v.push_back("luna_pinyin"[i % 11]);
+    if (pass == 0) {
+      for (size_t i = 0; i < len; ++i) v.push_back("luna_pinyin"[i % 11]);
+    } else {
+      if (len < 2) continue;
+      for (size_t u = len % 3; v.size() < len; ++u) {
+        std::string unit = kUnits[u % 4];
+        if (v.size() + unit.size() > len) unit = "y";
+        v += unit;
+      }
+    }
     std::string p = len ? "/" + v.substr(1) : v;
     if (len) api->set_property(s, "k", v.c_str());
     if (len) api->select_schema(s, v.c_str());
